@@ -745,6 +745,9 @@ func init() {
 			"only ties the model; plus exhaustive tables: Bar.Len for all 256×256 signatures, Ticks32th for all 65536 resolutions, MetaMeter. " +
 			"non-trivial = in-domain song with ≥ 2 bars, a signature change and a note with a duration; distinct by op text",
 		Gen: func(r *Rng, tier string, emit func(Case)) {
+			// NewRng(n+1) is NewRng(n) advanced by one draw (splitmix64 with the seed as multiple of the increment):
+			// fork, so that neighbouring seeds give unrelated streams
+			r = r.Fork()
 			// exhaustive tables first
 			for d := 0; d < 256; d++ {
 				emit(Case{Op: fmt.Sprintf("seq.lens %d", d), Tags: []string{"table:Bar.Len"}})
